@@ -1,8 +1,9 @@
 /-
 C01 — property theorems about the batch span processor LTS (Model.lean), for every reachable state,
-i.e. every interleaving of any number of producers, ForceFlush callers, the worker and Shutdown,
-every queue capacity, every batch size ≥ 1, blocking or not, every exporter result and delay, and
-the batch timer firing at any moment.
+i.e. every interleaving of any number of producers (sampled and unsampled spans), ForceFlush callers and
+Shutdown callers (`sync.Once`: one winner, the others wait for it) and the worker, every queue capacity, every
+batch size ≥ 1, blocking or not, every exporter result (nil, error, export-timeout deadline) and delay, and the
+batch timer firing at any moment.
 -/
 import Otel.C01.Lemmas3
 import Otel.C01.Progress
@@ -56,6 +57,24 @@ theorem bsp_only_ended_sampled (hpos : 1 ≤ maxB) (s : St) (h : Reachable cap m
   simp only [allIds, List.count_append] at h1
   exact List.count_pos_iff.mp (by omega)
 
+/-- S6, unsampled spans — `OnEnd` of an unsampled span returns without touching the processor: its id is never
+queued, batched, handed to the exporter or counted as dropped (`allIds`), in blocking mode as well as in
+non-blocking mode (both `enqueue*` functions test `IsSampled` first); in particular no unsampled id occurs in the
+exporter's log (`Spec.unsampledNotExported`). Span ids are unique over sampled and unsampled spans. -/
+theorem bsp_unsampled_never_exported (hpos : 1 ≤ maxB) (s : St) (h : Reachable cap maxB blocking s) :
+    (∀ id ∈ s.unsampled, id ∉ allIds s) ∧ Spec.unsampledNotExported s.exported s.unsampled = true := by
+  have hi := (inv_reachable cap maxB blocking hpos s h).a
+  have hu := invU_reachable h
+  have hall : ∀ id ∈ s.unsampled, id ∉ allIds s := by
+    intro id hid hall
+    have h1 := hi.cnt id
+    have hp : 0 < (allIds s).count id := List.count_pos_iff.mpr hall
+    exact hu id hid (List.count_pos_iff.mp (by omega))
+  refine ⟨hall, ?_⟩
+  simp only [Spec.unsampledNotExported, Bool.not_eq_true', List.any_eq_false, List.contains_iff_mem]
+  intro a ha hau
+  exact hall a hau (by simp [allIds, ha])
+
 /-- S3 — the exporter is entered only while nobody else is inside it (the step that appends to the
 exporter's log starts from a state where the batch mutex is free and takes it), and the exporter's
 `Shutdown` is called only when no `ExportSpans` call is in progress and none can start any more. -/
@@ -81,29 +100,160 @@ theorem bsp_exporter_exclusive (hpos : 1 ≤ maxB) (s s' : St) (l : Lbl) (h : Re
       exact ⟨this.2.1, this.1, this.2.2, hg.2⟩
     · simp at hs
 
-/-- S4 — nothing is exported after `Shutdown` has returned nil: from then on no step changes the
-exporter's log. -/
-theorem bsp_quiet_after_shutdown (hpos : 1 ≤ maxB) (s s' : St) (l : Lbl) (h : Reachable cap maxB blocking s)
-    (hret : s.sdRetOk = true) (hs : step s l = some s') : s'.exported = s.exported ∧ s'.sdRetOk = true := by
-  have hc := (inv_reachable cap maxB blocking hpos s h).c
-  have hw := hc.shutExited (hc.retSd hret)
-  have hcl := hc.exitedClean hw
-  cases l <;> simp only [step] at hs
+/-- export timeout / failing exporter ("handed to the span exporter exactly once") — `exportSpans` wraps its
+context with `ExportTimeout`, the exporter may return any error including that context's deadline error, and the
+batch is reset after the call whatever the result. In the model the return of an exporter call is one of the
+labels `exportEnd ok` (the worker's call; `ok = false` covers an exporter error and a timed-out export alike),
+`ffExportEndOk fid`, `ffExportEndErr fid` (a ForceFlush's own call). For each of them, from any reachable state:
+the spans handed over are in the exporter's log and stay there (`exported` unchanged — with `bsp_no_duplicate`
+for all later states: a failed or timed-out export is never re-exported), the pending batch is empty before and
+after (nothing of the failed batch goes back into the next batch), and no span moves anywhere else (queue,
+worker's hand, in-flight producers and the dropped ids are unchanged — with `bsp_conservation`: it does not lose
+track of any span either). The mutex is released. -/
+theorem bsp_failed_export_handled_once (hpos : 1 ≤ maxB) (s s' : St) (l : Lbl) (h : Reachable cap maxB blocking s)
+    (hl : (∃ ok, l = .exportEnd ok) ∨ (∃ fid, l = .ffExportEndOk fid) ∨ (∃ fid, l = .ffExportEndErr fid))
+    (hs : step s l = some s') :
+    s.busy ≠ none ∧ s'.busy = none ∧ s.batch = [] ∧ s'.batch = [] ∧ s'.exported = s.exported ∧
+    s'.queue = s.queue ∧ s'.hand = s.hand ∧ s'.inflight = s.inflight ∧ s'.droppedIds = s.droppedIds ∧
+    s'.accepted = s.accepted := by
+  have hb := (inv_reachable cap maxB blocking hpos s h).b.busyEmpty
+  rcases hl with ⟨ok, hl⟩ | ⟨fid, hl⟩ | ⟨fid, hl⟩ <;> subst hl <;> simp only [step] at hs
   all_goals (
     repeat' (split at hs)
     all_goals (try (simp at hs))
     all_goals (try subst hs)
-    all_goals (first | exact ⟨rfl, hret⟩ | simp_all))
+    all_goals (rename_i hbusy)
+    all_goals (have hne : s.busy ≠ none := by simp [hbusy])
+    all_goals (exact ⟨hne, rfl, hb hne, hb hne, rfl, rfl, rfl, rfl, rfl, rfl⟩))
 
-/-- S5 for `Shutdown` — when `Shutdown` has returned nil, every span whose `End` had returned before
-`Shutdown` was called is in the exporter's log or was counted as dropped; and spans are dropped only in
-non-blocking mode. -/
-theorem bsp_shutdown_delivers (hpos : 1 ≤ maxB) (s : St) (h : Reachable cap maxB blocking s)
-    (hret : s.sdRetOk = true) :
-    (∀ id ∈ s.sdPre, id ∈ s.exported.flatten ∨ id ∈ s.droppedIds) ∧ (s.droppedIds ≠ [] → s.blocking = false) := by
+/-- the result of an exporter call does not matter to where the spans are: the worker's `exportEnd false` (error
+or timeout) is the same step as `exportEnd true`, and a ForceFlush's `ffExportEndErr` differs from
+`ffExportEndOk` only in the phase (return value) of that ForceFlush call. -/
+theorem bsp_export_result_irrelevant (s : St) (fid : Nat) :
+    step s (.exportEnd false) = step s (.exportEnd true) ∧
+    (step s (.ffExportEndErr fid)).map (fun t => { t with ffs := [] }) =
+      (step s (.ffExportEndOk fid)).map (fun t => { t with ffs := [] }) := by
+  refine ⟨rfl, ?_⟩
+  simp only [step]
+  split <;> rfl
+
+/-- non-vacuity: an export that fails (or times out), then another span: each span is in the log once. -/
+example : ∃ s, run (init 2 1 false)
+    [.accept 1, .send 1, .wRecv, .wAppend, .wExportStart, .exportEnd false,
+     .accept 2, .send 2, .wRecv, .wAppend, .wExportStart, .exportEnd true] = some s ∧
+    s.exported = [[1], [2]] ∧ s.batch = [] := by
+  refine ⟨_, rfl, ?_⟩
+  decide
+
+/-- some Shutdown call has returned nil, and `pre` is the set of spans whose `End` had returned when THAT call was
+called: the call that won `stopOnce` (`sdRetOk`, `sdPre`) or any of the calls that found the once taken and
+waited in `sync.Once.Do` (`sds`). `Shutdown` contexts that expire are not modelled (no call returns an error). -/
+def ShutdownReturnedNil (s : St) (pre : List Nat) : Prop :=
+  (s.sdRetOk = true ∧ pre = s.sdPre) ∨ ∃ c ∈ s.sds, c.ret = true ∧ pre = c.pre
+
+/-- whichever Shutdown call has returned nil, the winning call's once-function has returned: the worker has
+exited and the exporter has been shut down -/
+theorem shutdown_returned_done (hpos : 1 ≤ maxB) (s : St) (h : Reachable cap maxB blocking s) (pre : List Nat)
+    (hret : ShutdownReturnedNil s pre) : s.sdRetOk = true ∧ s.sd = .shut ∧ s.w = .exited := by
   have hi := inv_reachable cap maxB blocking hpos s h
-  have hw := hi.c.shutExited (hi.c.retSd hret)
-  exact ⟨hi.f.exitedOK hw, hi.d.dropNB⟩
+  have hr : s.sdRetOk = true := by
+    rcases hret with ⟨hr, _⟩ | ⟨c, hc, hcr, _⟩
+    · exact hr
+    · exact hi.l.retDone c hc hcr
+  exact ⟨hr, hi.c.retSd hr, hi.c.shutExited (hi.c.retSd hr)⟩
+
+/-- S4 — nothing is exported after ANY `Shutdown` call has returned nil (the call that won `stopOnce` or any
+other): from then on no step changes the exporter's log, and nobody is inside the exporter. -/
+theorem bsp_quiet_after_shutdown (hpos : 1 ≤ maxB) (s s' : St) (l : Lbl) (h : Reachable cap maxB blocking s)
+    (pre : List Nat) (hret : ShutdownReturnedNil s pre) (hs : step s l = some s') :
+    s'.exported = s.exported ∧ s.busy = none ∧ s'.sdRetOk = true ∧ ShutdownReturnedNil s' s'.sdPre := by
+  have hc := (inv_reachable cap maxB blocking hpos s h).c
+  obtain ⟨hr, _, hw⟩ := shutdown_returned_done hpos s h pre hret
+  have hcl := hc.exitedClean hw
+  have key : s'.exported = s.exported ∧ s'.sdRetOk = true := by
+    cases l <;> simp only [step] at hs
+    all_goals (
+      repeat' (split at hs)
+      all_goals (try (simp at hs))
+      all_goals (try subst hs)
+      all_goals (first | exact ⟨rfl, hr⟩ | simp_all))
+  exact ⟨key.1, hcl.2.1, key.2, Or.inl ⟨key.2, rfl⟩⟩
+
+/-- S5 for `Shutdown`, every call — when ANY `Shutdown` call has returned nil (`pre` = the spans whose `End` had
+returned before THAT call was called): (1) every span whose `End` had returned before the FIRST Shutdown call was
+called is in the exporter's log or was counted as dropped; (2) every span of `pre` is in the exporter's log, or
+was counted as dropped, or — only possible for a call other than the first — is a late span: its `End` raced the
+first Shutdown (it passed the `stopped` check before Shutdown stored the flag and completed its send after the
+worker's drain had seen the queue empty), so it returned after the first Shutdown was called and the span sits in
+the queue of the exited worker (see `bsp_shutdown_late_call_witness`); (3) spans are dropped only in non-blocking
+mode. For the first call (`pre = s.sdPre`) clause (1) is the full delivery statement. -/
+theorem bsp_shutdown_delivers (hpos : 1 ≤ maxB) (s : St) (h : Reachable cap maxB blocking s)
+    (pre : List Nat) (hret : ShutdownReturnedNil s pre) :
+    (∀ id ∈ s.sdPre, id ∈ s.exported.flatten ∨ id ∈ s.droppedIds) ∧
+    (∀ id ∈ pre, id ∈ s.exported.flatten ∨ id ∈ s.droppedIds ∨ (id ∈ spansOf s.queue ∧ id ∉ s.sdPre)) ∧
+    (s.droppedIds ≠ [] → s.blocking = false) := by
+  have hi := inv_reachable cap maxB blocking hpos s h
+  obtain ⟨hr, _, hw⟩ := shutdown_returned_done hpos s h pre hret
+  have h1 := hi.f.exitedOK hw
+  refine ⟨h1, ?_, hi.d.dropNB⟩
+  rcases hret with ⟨_, hp⟩ | ⟨c, hc, _, hp⟩
+  · subst hp
+    intro id hid
+    rcases h1 id hid with h2 | h2
+    · exact Or.inl h2
+    · exact Or.inr (Or.inl h2)
+  · subst hp
+    intro id hid
+    have hpl := hi.d.seenPlaced id (hi.l.preSeen c hc id hid)
+    have hcl := hi.c.exitedClean hw
+    unfold placed at hpl
+    simp only [hcl.1, hcl.2.2, handL, List.not_mem_nil, false_or] at hpl
+    rcases hpl with h2 | h2 | h2
+    · by_cases hin : id ∈ s.sdPre
+      · rcases h1 id hin with h3 | h3
+        · exact Or.inl h3
+        · exact Or.inr (Or.inl h3)
+      · exact Or.inr (Or.inr ⟨h2, hin⟩)
+    · exact Or.inl h2
+    · exact Or.inr (Or.inl h2)
+
+/-- exclusion predicate of the late-span race: a span was enqueued after the worker had exited (its `End` passed
+the `stopped` check before the first Shutdown stored the flag and sent after the drain) — it stays in the queue -/
+def LateEnd_applies (s : St) : Bool := s.w == .exited && !(spansOf s.queue).isEmpty
+
+/-- S5 for every `Shutdown` call, partial: unless a late span sits in the exited worker's queue
+(`LateEnd_applies`), every span whose `End` had returned before a Shutdown call — the first or any other — is in
+the exporter's log or was counted as dropped when that call has returned nil. -/
+theorem bsp_shutdown_delivers_every_call_partial (hpos : 1 ≤ maxB) (s : St) (h : Reachable cap maxB blocking s)
+    (pre : List Nat) (hret : ShutdownReturnedNil s pre) (hno : LateEnd_applies s = false) :
+    ∀ id ∈ pre, id ∈ s.exported.flatten ∨ id ∈ s.droppedIds := by
+  obtain ⟨_, _, hw⟩ := shutdown_returned_done hpos s h pre hret
+  have hq : spansOf s.queue = [] := by
+    simpa [LateEnd_applies, hw] using hno
+  intro id hid
+  rcases (bsp_shutdown_delivers hpos s h pre hret).2.1 id hid with h1 | h1 | h1
+  · exact Or.inl h1
+  · exact Or.inr h1
+  · rw [hq] at h1; exact absurd h1.1 (by simp)
+
+/-- the full statement of S5 for every Shutdown call (each call's own `pre`, without the exclusion) — NOT a
+theorem of the current code, see the witness below -/
+def bsp_shutdown_delivers_every_call_full_statement : Prop :=
+  ∀ (cap maxB : Nat) (blocking : Bool), 1 ≤ maxB → ∀ s, Reachable cap maxB blocking s →
+    ∀ pre, ShutdownReturnedNil s pre → ∀ id ∈ pre, id ∈ s.exported.flatten ∨ id ∈ s.droppedIds
+
+/-- the schedule of the late-span race: `OnEnd` of span 1 passes the `stopped` check, a first Shutdown runs to
+completion (the worker drains an empty queue and exits), `OnEnd` then sends span 1 into the queue and returns; a
+second Shutdown call, made after that `End` returned, returns nil at once although span 1 is never exported. -/
+def lateEndSchedule : List Lbl :=
+  [.accept 1, .sdCall, .sdStore, .sdClose, .wStop, .wDrainEmpty, .wExportStart, .sdExporterShutdown, .sdReturnOk,
+   .send 1, .sdCallLate 1, .sdReturnLate 1]
+
+theorem bsp_shutdown_late_call_witness :
+    ∃ s, run (init 4 1 false) lateEndSchedule = some s ∧ LateEnd_applies s = true ∧
+      ∃ c ∈ s.sds, c.ret = true ∧ ∃ id ∈ c.pre, ¬ (id ∈ s.exported.flatten ∨ id ∈ s.droppedIds) := by
+  refine ⟨_, rfl, ?_⟩
+  decide
 
 /-- no deadlock on the Shutdown path — in every reachable state in which `Shutdown` has been called and has not
 yet returned, some internal step is enabled (a step of the worker or of the shutdown goroutine, or the return
@@ -113,6 +263,14 @@ theorem bsp_shutdown_never_stuck (hpos : 1 ≤ maxB) (s : St) (h : Reachable cap
     (hsd : s.sd ≠ .none) (hret : s.sdRetOk = false) :
     ∃ l, l.internal = true ∧ (step s l).isSome = true :=
   shutdown_progress_of_inv s (inv_reachable cap maxB blocking hpos s h).c hsd hret
+
+/-- the same for every Shutdown call that did not win `stopOnce`: while it is blocked in `sync.Once.Do` some
+internal step is enabled — of the winner's call, or its own return once the once is done. -/
+theorem bsp_shutdown_late_never_stuck (hpos : 1 ≤ maxB) (s : St) (h : Reachable cap maxB blocking s)
+    (c : SD) (hc : c ∈ s.sds) (hret : c.ret = false) :
+    ∃ l, l.internal = true ∧ (step s l).isSome = true :=
+  let hi := inv_reachable cap maxB blocking hpos s h
+  shutdown_progress_late s hi.c hi.l c hc hret
 
 /-- F22 exclusion predicate: this ForceFlush returned nil through one of the two early exits taken when a
 Shutdown is in progress (`stopped` already set, or `stopCh` winning the select). -/
@@ -166,11 +324,18 @@ theorem bsp_forceflush_full_statement_refuted : ¬ bsp_forceflush_delivers_full_
   have : f.ph = .retEarly := by simpa [F22_applies] using hF
   exact hno (hfull 4 1 false (by omega) s hreach f hf (Or.inr this) id hid)
 
+/-- hence the full every-call statement of S5 for Shutdown is false for the model of the current code -/
+theorem bsp_shutdown_every_call_full_statement_refuted : ¬ bsp_shutdown_delivers_every_call_full_statement := by
+  intro hfull
+  obtain ⟨s, hrun, _, c, hc, hcr, id, hid, hno⟩ := bsp_shutdown_late_call_witness
+  have hreach : Reachable 4 1 false s := run_reachable _ _ _ Reachable.init hrun
+  exact hno (hfull 4 1 false (by omega) s hreach c.pre (Or.inr ⟨c, hc, hcr, rfl⟩) id hid)
+
 /-- non-vacuity: a reachable state with two exports (one by the worker because the batch is full, one by
 a ForceFlush that returned nil normally), one dropped span and a completed Shutdown. -/
 def demoSchedule : List Lbl :=
   [.accept 1, .send 1, .accept 2, .send 2, .accept 3, .send 3,      -- cap 2: span 3 is dropped
-   .wRecv, .wAppend, .wRecv, .wAppend, .wExportStart, .exportEnd,    -- batch [1,2] exported by the worker
+   .wRecv, .wAppend, .wRecv, .wAppend, .wExportStart, .exportEnd true,    -- batch [1,2] exported by the worker
    .accept 4, .send 4, .ffCall 1, .ffCheck 1, .ffEnqueue 1, .wRecv, .wAppend, .wRecv,
    .ffExportStart 1, .ffExportEndOk 1,                               -- [4] exported by the ForceFlush
    .sdCall, .sdStore, .sdClose, .wStop, .wDrainEmpty, .wExportStart, .sdExporterShutdown, .sdReturnOk]
@@ -188,7 +353,7 @@ the LTS; `ReachableH cap maxB blocking s h` says that the model can reach `s` pr
 
 /-- the scanner of the history oracle, run over any history `h` of the model, mirrors the model's ghost state
 (`Sim`, HistorySim.lean): its exporter log is `s.exported`, "inside the exporter" is `s.busy.isSome`, its set of
-ended spans is `s.seen`, its `pre` sets of the ForceFlush calls and of Shutdown are the model's, "Shutdown
+ended spans is `s.seen`, its `pre` sets of the ForceFlush calls and of the first Shutdown call are the model's, "Shutdown
 called / returned nil / exporter shut down" agree with `s.sd` / `s.sdRetOk`, **its list of violated clauses is
 empty**, and its F22 flag is raised only if Shutdown has been called and some ForceFlush took an early exit.
 `dropped` is the value of the processor's dropped counter reported at the end of the run: any number that is at
@@ -204,22 +369,23 @@ theorem bsp_model_history_simulation (hpos : 1 ≤ maxB) (s : St) (h : List Spec
 Arguments of the oracle: `s.maxB`, `s.blocking` = the configuration; `dropped` = the dropped counter reported
 at the end of the run (any value ≥ the number of spans the model dropped; the real counter is exact);
 `allEnded := s.accepted` = every sampled span id whose `OnEnd` passed the `stopped` check (a superset of the
-ids whose `End` returned); `allUnsampled := []` (unsampled spans are not modelled: the processor discards them
-before touching shared state); `h` = the history. -/
+ids whose `End` returned); `allUnsampled := s.unsampled` = every unsampled span id whose `End` returned;
+`h` = the history. -/
 theorem bsp_model_history_passes_oracle (hpos : 1 ≤ maxB) (s : St) (h : List Spec.Ev)
     (hr : ReachableH cap maxB blocking s h) (dropped : Nat) (hd : s.droppedIds.length ≤ dropped) :
-    (Spec.histCheck s.maxB s.blocking dropped s.accepted [] h).1 = [] := by
+    (Spec.histCheck s.maxB s.blocking dropped s.accepted s.unsampled h).1 = [] := by
   have hsim := bsp_model_history_simulation hpos s h hr dropped hd
   have hreach := hr.reachable
   have h1 := bsp_no_duplicate hpos s hreach
   have h2 := bsp_batch_bound hpos s hreach
   have h6 := bsp_only_ended_sampled hpos s hreach
-  simp only [Spec.histCheck, hsim.batches, hsim.bad, h1, h2, h6, if_true]
-  simp
+  have h7 := (bsp_unsampled_never_exported hpos s hreach).2
+  simp only [Spec.histCheck, hsim.batches, hsim.bad, h1, h2, h6, h7, if_true]
 
 /-- the same with exactly the arguments the driver passes (`Spec.histJudge`, used by Main.lean): the sets of
 ended sampled / unsampled ids are read off the history itself, so S6 is judged against the `ended` events
-only — every exported span has an `ended` event in the history. -/
+only — every exported span has an `ended` event in the history, and no exported span has an `endedUnsampled`
+event (histories with unsampled spans included). -/
 theorem bsp_model_history_passes_driver_oracle (hpos : 1 ≤ maxB) (s : St) (h : List Spec.Ev)
     (hr : ReachableH cap maxB blocking s h) (dropped : Nat) (hd : s.droppedIds.length ≤ dropped) :
     (Spec.histJudge s.maxB s.blocking dropped h).1 = [] := by
@@ -236,9 +402,11 @@ theorem bsp_model_history_passes_driver_oracle (hpos : 1 ≤ maxB) (s : St) (h :
     have : a ∈ s.seen := hG a (Or.inr (Or.inr (Or.inr (Or.inl ha))))
     rw [hended] at this
     simpa using this
-  simp only [Spec.histJudge, Spec.histCheck, hsim.batches, hsim.bad, h1, h2, h6, if_true,
-    (reachableH_no_unsampled hr).1]
-  simp
+  have h7 : Spec.unsampledNotExported s.exported (Spec.unsampledIds h) = true := by
+    have := (bsp_unsampled_never_exported hpos s hreach).2
+    rw [reachableH_unsampled hr]
+    simpa [Spec.unsampledNotExported] using this
+  simp only [Spec.histJudge, Spec.histCheck, hsim.batches, hsim.bad, h1, h2, h6, h7, if_true]
 
 /-- known finding F22 at the level of histories — the oracle raises its F22 flag on a history of the model only
 if that history contains the `sdCalled` event (a Shutdown had been called before the ForceFlush returned) and
@@ -265,6 +433,25 @@ example : ∃ r, runH (init 2 2 false) [] demoSchedule = some r ∧
            .exportStart [4], .exportEnd, .ffReturned 1 true, .sdCalled, .expShutdownStart, .expShutdownEnd,
            .sdReturned true] ∧
     r.1.droppedIds.length = 1 ∧ Spec.histJudge 2 false 1 r.2 = ([], false) := by
+  refine ⟨_, rfl, ?_⟩
+  decide
+
+/-- three Shutdown callers (one wins `stopOnce`, two wait in `Once.Do`), an unsampled span, blocking mode, and
+the only export fails (error or export timeout). -/
+def multiShutdownSchedule : List Lbl :=
+  [.endUnsampled 9, .accept 1, .send 1, .sdCall, .sdCallLate 1, .sdStore, .sdClose, .sdCallLate 2, .wStop, .wRecv,
+   .wAppend, .wExportStart, .exportEnd false, .wDrainEmpty, .wExportStart, .sdExporterShutdown, .sdReturnOk,
+   .sdReturnLate 2, .sdReturnLate 1]
+
+/-- non-vacuity for several Shutdown callers and unsampled spans: the history has three `sdCalled` and three
+`sdReturned true` events and an `endedUnsampled`, the oracle accepts it; and a waiting caller cannot return
+before the winner has (the schedule with `sdReturnLate 1` moved before `sdReturnOk` is not a run of the model). -/
+example : ∃ r, runH (init 2 1 true) [] multiShutdownSchedule = some r ∧
+    r.2 = [.endedUnsampled 9, .ended 1, .sdCalled, .sdCalled, .sdCalled, .exportStart [1], .exportEnd,
+           .expShutdownStart, .expShutdownEnd, .sdReturned true, .sdReturned true, .sdReturned true] ∧
+    Spec.histJudge 1 true 0 r.2 = ([], false) ∧ r.1.unsampled = [9] ∧
+    (∀ c ∈ r.1.sds, c.ret = true ∧ c.pre = [1]) ∧
+    run (init 2 1 true) (multiShutdownSchedule.take 16 ++ [.sdReturnLate 1]) = none := by
   refine ⟨_, rfl, ?_⟩
   decide
 
